@@ -307,6 +307,8 @@ class ComposeSvfs:
         for terms in range(0, 6):
             yield {"D": 2, "bch_terms": terms, "what": "commuting"}
         yield {"D": 2, "bch_terms": 0, "what": "sum"}
+        for terms in range(1, 6):
+            yield {"D": 2, "bch_terms": terms, "what": "series"}
         yield {"D": 2, "bch_terms": -1, "what": "raises"}
         yield {"D": 2, "bch_terms": 6, "what": "raises"}
 
@@ -325,6 +327,31 @@ class ComposeSvfs:
             r = K.call(compose_svfs, K.tensor(ew), K.tensor(ez), bch_terms=0)
             if K.ensure_returns(r):
                 K.ensure_eq("sum", r, np.frompyfunc(E.add, 2, 1)(ew, ez), text="C13: with no bracket terms the BCH composition is the sum")
+            return
+        if case["what"] == "series":
+            # every added term is the corresponding term of the Baker-Campbell-Hausdorff series
+            #   log(exp(X) exp(Y)) = X + Y + 1/2 [X,Y] + 1/12 [X,[X,Y]] - 1/12 [Y,[X,Y]] - 1/24 [Y,[X,[X,Y]]] + ...   (X = v, Y = u)
+            # times a factor in (0, 1] (the 4-term truncation takes half of the 4th-order term) - a term of the wrong sign
+            # or size would make the error grow with the truncation order.
+            from deepali.core.flow import lie_bracket
+
+            ez = K.reals("z", (1, D) + shape)
+            u, v = K.tensor(ew), K.tensor(ez)
+            k = case["bch_terms"]
+            r = K.call(compose_svfs, u, v, bch_terms=k, mode="forward_central_backward")
+            if not K.ensure_returns(r):
+                return
+            lb = lambda a_, b_: lie_bracket(a_, b_, mode="forward_central_backward")
+            vu = lb(v, u)
+            want = v + u + 0.5 * vu
+            if k >= 2:
+                vvu = lb(v, vu)
+                want = want + vvu / 12
+            if k >= 3:
+                want = want - lb(u, vu) / 12
+            if k >= 4:
+                want = want - lb(u, vvu) * ((1 if k == 4 else 2) / 48)
+            K.ensure_eq("series", r, K.val(want), text="C13: the BCH composition approximates log(exp(v) o exp(u)) with error that does not grow with the truncation order [each added term = the BCH series term times a factor in (0, 1]]")
             return
         a, b = K.real("a"), K.real("b")
         eu = np.frompyfunc(lambda e: E.mul(a, e), 1, 1)(ew)
@@ -392,3 +419,46 @@ class LogExpBounded:
             errs.append((w - ref).abs().max().item())
         K.env["bch_errs"] = str([round(e / (2 / n), 5) for e in errs])
         K.ensure("bch-order", E.bconst(max(errs[1:]) <= errs[0] * 1.5 + 1e-7), text="C13: BCH error does not grow with the truncation order: " + K.env["bch_errs"])
+
+
+@register
+class ExpFlowModule:
+    """modules.ExpFlow passes scale, steps and align_corners through to expv; forward(inverse=True), inverse() and inv all
+    negate the scale exactly once; inverse() leaves the module it was called on as it was."""
+
+    target = "deepali.modules.flow:ExpFlow.forward"
+    properties = ("C11", "C15")
+
+    def cases(self, tier):
+        for ac in (True, False):
+            for steps in (0, 1):
+                yield {"align_corners": ac, "steps": steps}
+
+    def run(self, case, K):
+        from deepali.core.flow import expv
+        from deepali.modules import ExpFlow
+
+        D, ac, steps = 2, case["align_corners"], case["steps"]
+        shape = FSHAPES[D]
+        ev = K.reals("v", (1, D) + shape, lo=Fraction(-1, 4), hi=Fraction(1, 4))
+        v = K.tensor(ev)
+        m = ExpFlow(scale=1.5, steps=steps, align_corners=ac)
+        ref_pos = K.call(expv, v, scale=1.5, steps=steps, align_corners=ac)
+        ref_neg = K.call(expv, v, scale=-1.5, steps=steps, align_corners=ac)
+        if not (K.ensure_returns(ref_pos) and K.ensure_returns(ref_neg)):
+            return
+        out = K.call(m, v)
+        if K.ensure_returns(out):
+            K.ensure_eq("forward", out, K.val(ref_pos), text="C11 (ExpFlow): scale, steps and align_corners reach the exponential unchanged")
+        outi = K.call(m, v, inverse=True)
+        if K.ensure_returns(outi):
+            K.ensure_eq("forward-inverse", outi, K.val(ref_neg), text=Q11Z + " [ExpFlow.forward(inverse=True)]")
+        inv = K.call(m.inverse)
+        if K.ensure_returns(inv):
+            K.ensure("receiver", E.bconst(m.scale == 1.5 and inv is not m), text="C15: ExpFlow.inverse() leaves the module it was called on as it was")
+            oi = K.call(inv, v)
+            if K.ensure_returns(oi):
+                K.ensure_eq("inverse()", oi, K.val(ref_neg), text=Q11Z + " [ExpFlow.inverse()]")
+        oi2 = K.call(m.inv, v)
+        if K.ensure_returns(oi2):
+            K.ensure_eq("inv", oi2, K.val(ref_neg), text=Q11Z + " [ExpFlow.inv]")
